@@ -33,6 +33,14 @@ fn pick<const N: usize>(t: &[f64; N], k: u8) -> f64 {
     t[k as usize]
 }
 
+/// How an optional setting is chosen: absent, symbolic (presence and table index), or fixed.
+#[derive(Clone, Copy)]
+pub enum Opt {
+    Absent,
+    Sym,
+    Fixed(f64),
+}
+
 /// What is left symbolic.
 #[derive(Clone, Copy)]
 pub struct Shape {
@@ -42,11 +50,25 @@ pub struct Shape {
     pub inner: u64,
     /// concrete [0,1] ranges when false
     pub sym_range: bool,
-    /// kt_start fixed to this value when Some
+    /// kt_start fixed to this value when Some, symbolic table index otherwise
     pub kt_start: Option<f64>,
-    pub sym_conv: bool,
-    pub sym_finish: bool,
-    pub sym_ratio: bool,
+    pub conv: Opt,
+    pub finish: Opt,
+    pub ratio: Opt,
+}
+
+fn opt(o: Opt, has: bool, v: f64) -> Option<f64> {
+    match o {
+        Opt::Absent => None,
+        Opt::Sym => {
+            if has {
+                Some(v)
+            } else {
+                None
+            }
+        }
+        Opt::Fixed(x) => Some(x),
+    }
 }
 
 /// All symbolic inputs are drawn here, in this fixed order (the replay decoder relies on it:
@@ -93,26 +115,24 @@ pub fn draw(sh: Shape) -> Inputs {
         i += 1;
     }
     let init_score = pick(&SCORES, k_init_score);
-    let mut score = [0f64; MAXC];
-    let mut t = 0;
-    while t < MAXC {
+    // unrolled by hand: a loop here would force the global unwind bound up to MAXC
+    let sc = |t: usize| -> f64 {
         kani::assume((k_score[t] as usize) < SCORES.len());
-        score[t] = SCORES[k_score[t] as usize];
-        t += 1;
-    }
-    let has_fin = has_fin && sh.sym_finish;
-    let has_ratio = has_ratio && sh.sym_ratio;
-    let has_conv = has_conv && sh.sym_conv;
+        SCORES[k_score[t] as usize]
+    };
+    let score: [f64; MAXC] = [
+        sc(0), sc(1), sc(2), sc(3), sc(4), sc(5), sc(6), sc(7), sc(8), sc(9), sc(10), sc(11), sc(12), sc(13), sc(14), sc(15),
+    ];
 
     Inputs {
         cfg: Cfg {
             steps: sh.steps,
             inner: sh.inner,
             kt_start,
-            kt_finish: if has_fin { Some(fin) } else { None },
-            kt_ratio: if has_ratio { Some(ratio) } else { None },
+            kt_finish: opt(sh.finish, has_fin, fin),
+            kt_ratio: opt(sh.ratio, has_ratio, ratio),
             max_step,
-            conv: if has_conv { Some(conv) } else { None },
+            conv: opt(sh.conv, has_conv, conv),
             seed: sh.seed,
             np,
             lo,
@@ -125,46 +145,8 @@ pub fn draw(sh: Shape) -> Inputs {
     }
 }
 
-fn go(inp: &Inputs) {
+pub fn go(inp: &Inputs) {
     install(inp.cfg, inp.script, inp.init, inp.exp_choice, inp.powf_choice);
     run(&inp.cfg, inp.init);
 }
 
-const BASE: Shape = Shape {
-    np: 2,
-    seed: 1,
-    steps: 4,
-    inner: 2,
-    sym_range: false,
-    kt_start: Some(0.),
-    sym_conv: false,
-    sym_finish: false,
-    sym_ratio: false,
-};
-
-macro_rules! probe {
-    ($name:ident, $unwind:expr, $shape:expr) => {
-        #[kani::proof]
-        #[kani::unwind($unwind)]
-        #[kani::stub(f64::exp, exp_stub)]
-        #[kani::stub(f64::powf, powf_stub)]
-        #[kani::stub(std::fmt::format, format_stub)]
-        fn $name() {
-            let inp = draw($shape);
-            go(&inp);
-            let m = mon();
-            kani::cover!(m.accepted >= 1 && m.rejected >= 1, "both outcomes reachable");
-            assert!(!m.flags.multi_param);
-            assert!(!m.flags.bad_held);
-        }
-    };
-}
-
-probe!(p_base, 17, BASE);
-probe!(p_range, 17, Shape { sym_range: true, ..BASE });
-probe!(p_kt, 17, Shape { kt_start: None, sym_ratio: true, ..BASE });
-probe!(p_fin, 17, Shape { kt_start: None, sym_finish: true, ..BASE });
-probe!(p_np3, 17, Shape { np: 3, ..BASE });
-probe!(p_all, 17, Shape { np: 2, seed: 1, steps: 4, inner: 2, sym_range: true, kt_start: None, sym_conv: true, sym_finish: true, sym_ratio: true });
-probe!(p_all63, 17, Shape { np: 2, seed: 1, steps: 6, inner: 3, sym_range: true, kt_start: None, sym_conv: true, sym_finish: true, sym_ratio: true });
-probe!(p_all82, 17, Shape { np: 3, seed: 2, steps: 8, inner: 2, sym_range: true, kt_start: None, sym_conv: true, sym_finish: true, sym_ratio: true });
